@@ -1646,3 +1646,19 @@ func specNextLine(fb *functionBuilder) int {
 //@   props C21
 //@   requires pos != nil
 //@   ensures result != nil && result.pos.Line == pos.Line && result.pos.Column == pos.Column && result.pos.Start == pos.Start && result.pos.End == pos.End
+
+// ---------------------------------------------------------------------------
+// C20, the function tables seen from the emitter: a call instruction names its
+// callee by an 8-bit index into the calling function's table, so the table may
+// not grow past 256 entries - the emitter's own two ways of adding an entry
+// must hit the same limit error as the builder's (an index that wraps calls
+// the wrong function).
+// ---------------------------------------------------------------------------
+
+//@ func (*functionStore).scriggoFnIndex
+//@   props X00 C20
+//@   panics allowed
+//@   opt stable functionStore emitter functionBuilder
+//@   requires fs != nil && fs.emitter != nil && fs.emitter.fb != nil && fs.emitter.fb.fn != nil && fs.scriggoFuncIndexes != nil
+//@   requires len(fs.emitter.fb.fn.Functions) <= 256
+//@   ensures[C20] len(fs.emitter.fb.fn.Functions) <= 256
